@@ -3,6 +3,15 @@ Block-level tokenizer for mistletoe.
 """
 
 
+class LazyLine(str):
+    """
+    A lazy continuation line: a line that lacks the marker or the indentation of the
+    container(s) it was read into, on the assumption that it continues a paragraph.
+    It can never be the underline of a setext heading. If it turns out not to continue
+    a paragraph, the container ended before it (see `tokenize_block`).
+    """
+
+
 class FileWrapper:
     def __init__(self, lines, start_line=1):
         self.lines = lines if isinstance(lines, list) else list(lines)
@@ -76,13 +85,22 @@ def tokenize_block(iterable, token_types, start_line=1):
     lines = FileWrapper(iterable, start_line=start_line)
     parse_buffer = ParseBuffer()
     line = lines.peek()
+    paragraph_open = False
     while line is not None:
+        if isinstance(line, LazyLine) and not paragraph_open:
+            # the line does not continue a paragraph, so it is no lazy continuation line:
+            # the container ended before it. Its reader takes this line and the rest back.
+            parse_buffer.unread = len(lines.lines) - lines.get_pos() - 1
+            break
+        paragraph_open = False
         for token_type in token_types:
             if token_type.start(line):
                 line_number = lines.line_number() + 1
                 result = token_type.read(lines)
                 if result is not None:
                     parse_buffer.append((token_type, result, line_number))
+                    # link reference definitions are cut from the start of a paragraph: what follows them continues it
+                    paragraph_open = getattr(token_type, 'starts_paragraph', False)
                     break
         else:  # unmatched newlines
             next(lines)
@@ -116,3 +134,4 @@ class ParseBuffer(list):
     def __init__(self, *args):
         super().__init__(*args)
         self.loose = False
+        self.unread = 0  # lines at the end of the input that were left unread (see `tokenize_block`)
